@@ -251,6 +251,62 @@ func (X *Exec) execAlloc(fr *Frame, i *ssa.Alloc, st *State) {
 	a := &Addr{Kind: AddrObj, Ref: r, ObjT: T, T: T}
 	X.store(st, a, X.zero(T))
 	fr.Regs[i] = &Val{T: r, GT: i.Type()}
+	if structOf(T) == nil && ownedCell(i) {
+		// a local that lives on the heap only because closures READ it: nothing but this function's own
+		// assignments changes it, so it survives havoc-everything events
+		n, s := X.E.CellHeap(T)
+		st.Stable = append(st.Stable, stableRec{Heap: n, Sort: s, Ref: r, Alloc: i})
+	}
+}
+
+// ownedCell: every use of the heap-allocated local is a load, a store INTO it, or a capture by a closure that never
+// assigns to it (directly or through nested closures).
+var ownedCache = map[*ssa.Alloc]bool{}
+
+func ownedCell(a *ssa.Alloc) bool {
+	if v, ok := ownedCache[a]; ok {
+		return v
+	}
+	ok := ownedValue(a, 0)
+	ownedCache[a] = ok
+	return ok
+}
+
+func ownedValue(v ssa.Value, depth int) bool {
+	if depth > 4 || v.Referrers() == nil {
+		return false
+	}
+	for _, ref := range *v.Referrers() {
+		switch r := ref.(type) {
+		case *ssa.DebugRef:
+		case *ssa.UnOp:
+			if r.Op != token.MUL {
+				return false
+			}
+		case *ssa.Store:
+			if r.Addr != v || r.Val == v {
+				return false
+			}
+			if depth > 0 {
+				return false // a closure assigns to the captured variable
+			}
+		case *ssa.MakeClosure:
+			fn, _ := r.Fn.(*ssa.Function)
+			if fn == nil {
+				return false
+			}
+			for k, b := range r.Bindings {
+				if b == v {
+					if k >= len(fn.FreeVars) || !ownedValue(fn.FreeVars[k], depth+1) {
+						return false
+					}
+				}
+			}
+		default:
+			return false
+		}
+	}
+	return true
 }
 
 func (X *Exec) execUnOp(fr *Frame, i *ssa.UnOp, st *State) {
@@ -1058,4 +1114,49 @@ func (X *Exec) applyStoreHooks(fr *Frame, st *State, i *ssa.Store, addr *Addr, v
 			X.setHeap(st, "GH|"+u.Name, srt, sc.evalGhost(u.Expr, srt))
 		}
 	}
+}
+
+
+// immutableCapture: the captured variable is assigned exactly once (where it is declared / spilled) by the function
+// that owns it and by no closure: inside the closures it is a constant.
+func immutableCapture(fv *ssa.FreeVar) bool {
+	fn := fv.Parent()
+	if fn == nil || fn.Parent() == nil {
+		return false
+	}
+	idx := -1
+	for k, f := range fn.FreeVars {
+		if f == fv {
+			idx = k
+		}
+	}
+	if idx < 0 {
+		return false
+	}
+	parent := fn.Parent()
+	for _, b := range parent.Blocks {
+		for _, ins := range b.Instrs {
+			mc, ok := ins.(*ssa.MakeClosure)
+			if !ok || mc.Fn != fn || idx >= len(mc.Bindings) {
+				continue
+			}
+			switch v := mc.Bindings[idx].(type) {
+			case *ssa.Alloc:
+				if !ownedCell(v) {
+					return false
+				}
+				stores := 0
+				for _, ref := range *v.Referrers() {
+					if st, ok := ref.(*ssa.Store); ok && st.Addr == v {
+						stores++
+					}
+				}
+				return stores == 1
+			case *ssa.FreeVar:
+				return immutableCapture(v)
+			}
+			return false
+		}
+	}
+	return false
 }
